@@ -28,6 +28,17 @@ POOL = {
     'hf': ({'HF': 1}, {'H+': 1, 'F-': 1}, -3.17),
     'agnh3': ({'Ag+': 1, 'NH3': 2}, {'Ag(NH3)2+': 1}, 7.2),
 }
+# equilibria whose row-reduced stoichiometry has fractional entries for some substance orders (dimerisations, 2:1 / 3:2 / 2:2 complexes)
+PIVOT = {
+    'dichromate': ({'HCrO4-': 2}, {'Cr2O7-2': 1, 'H2O': 1}, 1.53 + math.log10(55.5)),
+    'n2o4': ({'NO2': 2}, {'N2O4': 1}, 2.2),
+    'cu2oh2': ({'Cu+2': 2, 'OH-': 2}, {'Cu2(OH)2+2': 1}, 17.0),
+    'al2so43': ({'Al+3': 2, 'SO4-2': 3}, {'Al2(SO4)3': 1}, 3.0),
+    'hg2': ({'Hg+2': 1, 'Hg': 1}, {'Hg2+2': 1}, 2.0),
+    'i3': ({'I2': 1, 'I-': 1}, {'I3-': 1}, 2.9),
+}
+POOL.update(PIVOT)
+PIVOT_NAMES = tuple(PIVOT) + ('agnh3',)
 SALTS = {
     'AgCl': ('AgCl(s)', {'Ag+': 1, 'Cl-': 1}, -9.74),
     'BaSO4': ('BaSO4(s)', {'Ba+2': 1, 'SO4-2': 1}, -9.97),
@@ -77,6 +88,14 @@ def _variant_kwargs(v):
         'loglin_rref': dict(NumSys=(NumSysLog, NumSysLin), rref_preserv=True),
         'condchain': dict(NumSys=(NumSysLog, NumSysLin), neqsys_type='conditional_chained'),
     }[v]
+
+
+def _run_kwargs(c):
+    """solver keyword arguments of a run case: chain variant plus the reduction configuration `rref` = [rref_equil, rref_preserv] if given"""
+    kw = dict(_variant_kwargs(c['variant']))
+    if c.get('rref') is not None:
+        kw['rref_equil'], kw['rref_preserv'] = bool(c['rref'][0]), bool(c['rref'][1])
+    return kw
 
 
 def _fr(v):
@@ -189,6 +208,10 @@ class C08(Property):
         'warm starts on real runs (x0 = solution / initial state of another composition, array or dict; root and _solve): oracle kind warm; that the '
         'parameter vector is init_concs ++ constants whatever x0 is: correspondence op root_args (stand-in solver capturing the real call) tied to the '
         'model function rootArgs, about which warm_start_keeps_initial_totals is a theorem',
+        'reduction configurations rref_equil x rref_preserv (sympy row reduction via pyneqsys; fractional exponents for non-unit pivot coefficients): no Lean '
+        'model (C07 models rref=False only); covered by solver runs on the pivot family (dimerisations, 2:1 / 3:2 / 2:2 complexes, pivot species first) '
+        'under every configuration and chain with the genuineness oracle, and by the structural stages oracle comparing the residual the solver sees with '
+        'an independent evaluation of the row-reduced equations (exact rational exponents)',
         'the default tolerances rtol=1e-9 / 1e-14 are model constants tied to the source by correspondence buckets (sane:default-*, fw:default-*), not extracted',
     )
     anchors = (
@@ -571,7 +594,7 @@ class C08(Property):
         n_h = max(40, int(n * 0.6))
         n_s = max(8, int(n * 0.15))
         n_1 = max(8, int(n * 0.12))
-        names = list(POOL)
+        names = [k for k in POOL if k not in PIVOT]
         rate_specs, solve_specs, rate_ab, solve_ab = [], [], [], []
         others = [v for v in VARIANTS if v not in ('default', 'condchain')]
         i = 0
@@ -610,10 +633,31 @@ class C08(Property):
             cases += [d, d2]
             rate_ab.append(d)
             solve_ab.append(d2)
+        # non-unit pivot coefficients x every reduction configuration (rref_equil x rref_preserv) x chain, in several substance orders
+        pv_chains = ['log', 'lin', 'square', 'loglin', 'default']
+        for j in range(max(24, n // 20)):
+            sel = rng.sample(PIVOT_NAMES, rng.choice([1, 1, 2]))
+            if rng.random() < 0.3 and ('cu2oh2' in sel or 'dichromate' in sel):
+                sel.append('water')
+            subs = []
+            for nm in sel:
+                for s_ in list(POOL[nm][0]) + list(POOL[nm][1]):
+                    if s_ not in subs:
+                        subs.append(s_)
+            rng.shuffle(subs)
+            if j % 2 == 0:        # a species with coefficient >= 2 first: it becomes the pivot of the row reduction
+                heavy = [s_ for nm in sel for s_, v in list(POOL[nm][0].items()) + list(POOL[nm][1].items()) if v >= 2]
+                if heavy:
+                    h = rng.choice(heavy)
+                    subs.remove(h)
+                    subs.insert(0, h)
+            cases.append({'kind': 'homog', 'family': 'pivot', 'eqs': sel, 'logK': [round(POOL[nm][2] + rng.uniform(-1.5, 1.5), 6) for nm in sel],
+                          'subs': subs, 'init': [55.5 if s_ == 'H2O' else float('%.6g' % 10 ** rng.uniform(-4, -1)) for s_ in subs],
+                          'variant': pv_chains[j % len(pv_chains)], 'rref': [bool((j // 5) % 2), bool((j // 10) % 2)]})
         # structural: stage i of a multi-stage chain is built from NumSys class i
         chains = [['log', 'lin'], ['lin', 'log'], ['log', 'square'], ['square', 'lin'], ['log', 'lin', 'square']]
         types = ['chained_conditional', 'chained_conditional', 'conditional_chained', 'static_conditions']
-        for j in range(max(8, n // 40)):
+        for j in range(max(12, n // 30)):
             if j % 3 == 2:
                 nm = rng.choice(list(SALTS))
                 solid, ions, lk = SALTS[nm]
@@ -627,7 +671,18 @@ class C08(Property):
                         if s_ not in subs:
                             subs.append(s_)
                 sys_ = {'kind': 'homog', 'eqs': sel, 'logK': [round(POOL[nm][2] + rng.uniform(-2, 2), 6) for nm in sel], 'subs': subs}
-            cases.append({'kind': 'stages', 'system': sys_, 'chain': chains[j % len(chains)], 'neqsys_type': types[j % len(types)],
+            rref = None
+            if sys_['kind'] == 'homog' and j % 2 == 1:      # the residual the solver sees under a reduction configuration, pivot systems
+                sel = rng.sample(PIVOT_NAMES, rng.choice([1, 2]))
+                subs = []
+                for nm in sel:
+                    for s_ in list(POOL[nm][0]) + list(POOL[nm][1]):
+                        if s_ not in subs:
+                            subs.append(s_)
+                rng.shuffle(subs)
+                sys_ = {'kind': 'homog', 'eqs': sel, 'logK': [round(POOL[nm][2] + rng.uniform(-1, 1), 6) for nm in sel], 'subs': subs}
+                rref = [[True, False], [True, True], [False, True]][(j // 2) % 3]
+            cases.append({'kind': 'stages', 'system': sys_, 'chain': chains[j % len(chains)], 'neqsys_type': types[j % len(types)], 'rref': rref,
                           'y': [round(rng.uniform(0.05, 2.0), 4) for _ in sys_['subs']],
                           'init': [float('%.4g' % 10 ** rng.uniform(-4, 0)) for _ in sys_['subs']]})
         for j in range(n_s):
@@ -761,7 +816,7 @@ class C08(Property):
                     x, sane = np.asarray(r_.conc, dtype=float).reshape(-1), bool(r_.sane)
                     sol = {'success': bool(r_.success)}
                 else:
-                    x, sol, sane = es.root(init, **_variant_kwargs(c['variant']))
+                    x, sol, sane = es.root(init, **_run_kwargs(c))
             res.update(success=_success(sol), sane=bool(sane), x=[float(v) for v in np.asarray(x, dtype=float)], maxfun=_max_fun(sol),
                        inner_success=bool(_inner(sol).get('success')) if 'success' in _inner(sol) else None,
                        conditions=[bool(b) for b in sol['conditions']] if isinstance(sol, dict) and 'conditions' in sol else None)
@@ -1299,6 +1354,14 @@ class C08(Property):
         return ok, n
 
     def _oracle_stages(self, c):
+        try:
+            return self._oracle_stages_inner(c)
+        except ValueError as e:
+            if 'nder-determined' in str(e) or 'nderdetermined' in str(e):
+                return None          # pyneqsys refuses to build the system (rank-deficient reduction): nothing is claimed
+            raise
+
+    def _oracle_stages_inner(self, c):
         """stage i of a multi-stage chain must be built from NumSys class i: the residual function (and the post-processor) of each
         per-stage system produced by get_neqsys_* is compared with NumSys_i(eqsys).f evaluated directly"""
         import numpy as np
@@ -1307,7 +1370,13 @@ class C08(Property):
         cls = {'log': NumSysLog, 'lin': NumSysLin, 'square': NumSysSquare}
         es = self._build_pool(c['system'])
         chain = [cls[k] for k in c['chain']]
-        ne = es.get_neqsys(c['neqsys_type'], NumSys=tuple(chain))
+        rref = c.get('rref')
+        if es.nr + len(es.composition_balance_vectors()[1]) < es.ns:
+            return None      # fewer equations than unknowns (e.g. two sub-systems sharing only the charge balance): pyneqsys refuses, nothing is claimed
+        if rref:
+            ne = es.get_neqsys(c['neqsys_type'], NumSys=tuple(chain), rref_equil=bool(rref[0]), rref_preserv=bool(rref[1]))
+        else:
+            ne = es.get_neqsys(c['neqsys_type'], NumSys=tuple(chain))
         npt = len(es.phase_transfer_reaction_idxs())
         cond_sets = [(False,) * npt] if (c['neqsys_type'] == 'static_conditions' or npt == 0) else [(False,) * npt, (True,) * npt]
         y = np.array(c['y'], dtype=float)
@@ -1325,12 +1394,14 @@ class C08(Property):
                 got = np.asarray(st.f_cb(y, params), dtype=float).reshape(-1)
 
                 def direct(N):
+                    if rref:      # independent evaluation of the row-reduced equations (homogeneous systems)
+                        return self._reduced_residual(es, {v: k for k, v in cls.items()}[N], y, params, bool(rref[0]), bool(rref[1]))
                     return np.asarray([float(v) for v in N(es, precipitates=conds, backend='math').f(list(y), list(params))])
                 want = direct(NS)
                 if got.shape != want.shape or not np.allclose(got, want, rtol=1e-9, atol=1e-300):
                     like = [k for k, N in cls.items() if direct(N).shape == got.shape and np.allclose(got, direct(N), rtol=1e-9, atol=1e-300)]
-                    return ('stage %d of the %s chain %s (conditions %s) does not evaluate the %s residual function at y=%s%s' % (
-                        i, c['neqsys_type'], c['chain'], list(conds), NS.__name__, c['y'],
+                    return ('stage %d of the %s chain %s (conditions %s%s) does not evaluate the %s residual function at y=%s%s' % (
+                        i, c['neqsys_type'], c['chain'], list(conds), (', rref_equil=%s, rref_preserv=%s' % tuple(rref)) if rref else '', NS.__name__, c['y'],
                         '; it evaluates like %s' % ', '.join(like) if like else ''))
                 ns_obj = NS(es, precipitates=conds)
                 if ns_obj.post_processor is not None:
@@ -1339,6 +1410,45 @@ class C08(Property):
                     if not np.allclose(a, b, rtol=1e-12):
                         return 'stage %d of the %s chain %s does not use the post-processor of %s' % (i, c['neqsys_type'], c['chain'], NS.__name__)
         return None
+
+    @staticmethod
+    def _reduced_residual(es, form, y, params, rref_equil, rref_preserv):
+        """what NumSys{Lin,Square,Log}.f must evaluate to for a homogeneous system under a reduction configuration, computed here from
+        the definitions: equilibrium rows  prod c^R_i / K'_i - 1  (Log: R_i.y - ln K'_i) with (R | ln K') the reduced row echelon form of
+        (N | ln K) — exact rational exponents —, conservation rows  B'.c - b'  with (B' | b') the rref of (B | B.c0) (or B, B.c0 as is)."""
+        import numpy as np
+        import sympy as sp
+        ns = es.ns
+        y = [float(v) for v in y]
+        c0 = [float(v) for v in params[:ns]]
+        lnK = [math.log(float(k)) for k in params[ns:]]
+        N = [[int(v) for v in row] for row in es.stoichs()]
+        conc = {'lin': y, 'square': [v * v for v in y], 'log': [math.exp(v) for v in y]}[form]
+        lnc = [math.log(v) for v in conc]
+
+        def reduce(rows, rhs):
+            # rref of (rows | I): R = T.rows, so the reduced right-hand side is T.rhs (keeps the rhs out of the exact elimination)
+            m = len(rows)
+            aug = sp.Matrix([[sp.Rational(v) for v in row] + [1 if i == j else 0 for j in range(m)] for i, row in enumerate(rows)])
+            red, piv = aug.rref()
+            ncol = len(rows[0])
+            keep = [i for i in range(m) if any(red[i, j] != 0 for j in range(ncol))]
+            R = [[Fraction(int(red[i, j].p), int(red[i, j].q)) for j in range(ncol)] for i in keep]
+            T = [[Fraction(int(red[i, ncol + j].p), int(red[i, ncol + j].q)) for j in range(m)] for i in keep]
+            return R, [sum(float(t) * r for t, r in zip(Trow, rhs)) for Trow in T]
+        R, lk = reduce(N, lnK) if rref_equil else ([[Fraction(v) for v in row] for row in N], lnK)
+        if form == 'log':
+            f_eq = [sum(float(e) * v for e, v in zip(row, y)) - k for row, k in zip(R, lk)]
+        else:
+            f_eq = [math.exp(sum(float(e) * l for e, l in zip(row, lnc) if e != 0) - k) - 1 for row, k in zip(R, lk)]
+        B = [[int(v) if float(v).is_integer() else float(v) for v in row] for row in es.composition_balance_vectors()[0]]
+        b = [sum(bv * cv for bv, cv in zip(row, c0)) for row in B]
+        if rref_preserv:
+            Rb, rb = reduce(B, b)
+        else:
+            Rb, rb = B, b
+        f_pr = [sum(float(e) * v for e, v in zip(row, conc)) - r for row, r in zip(Rb, rb)]
+        return np.asarray(f_eq + f_pr, dtype=float)
 
     def known_key(self, c, failure):
         """Finding `lm-nonroot-reported-as-success`: the Lin / Square formulations are over-determined (nr + #components equations
@@ -1387,12 +1497,13 @@ class C08(Property):
             return op
         k = c.get('kind')
         if k in ('homog', 'salt', 'single'):
-            return 'solve:%s:%s:%s' % (c.get('family', k), c['variant'], self._run(c)['outcome'])
+            return 'solve:%s:%s%s:%s' % (c.get('family', k), c['variant'], (':rref=%d%d' % tuple(map(int, c['rref']))) if c.get('rref') else '',
+                                       self._run(c)['outcome'])
         if k == 'rate':
             ok, n = self._rate(c)
             return 'solve:rate:%s:%s:n=%d:failures=%d' % (c.get('pool'), 'solve' if 'solve' in c.get('chain', '') else 'root', n, n - ok)
         if k == 'stages':
-            return 'stages:%s:%s' % (c['neqsys_type'], '-'.join(c['chain']))
+            return 'stages:%s:%s%s' % (c['neqsys_type'], '-'.join(c['chain']), (':rref=%d%d' % tuple(map(int, c['rref']))) if c.get('rref') else '')
         if k == 'grid':
             return 'grid:%s:%d-varied' % (c['api'], len(c['varied']))
         if k == 'history':
